@@ -661,6 +661,9 @@ Proof. intros [p ->] [q ->]. exists (q ++ p). rewrite app_assoc. reflexivity. Qe
 Lemma suffix_step x l : suffix l (x :: l).
 Proof. exists [x]. reflexivity. Qed.
 
+Lemma suffix_in u tr0 tr : suffix (u :: tr0) tr -> In u tr.
+Proof. intros [p ->]. apply in_or_app. right. left. reflexivity. Qed.
+
 Definition rtrace {A} (r : res (A * trace)) : option trace :=
   match r with Normal (_, t) => Some t | Escapes _ t => Some t | OutOfDepth => None end.
 
